@@ -571,6 +571,17 @@ class FnSplicer:
                                     k += 1
                             if k >= end:
                                 raise ExtractError(f'{self._where()}: anchor `{anchor}` statement end not found')
+                            if p.get('after_block'):
+                                # after the closing brace of the block that encloses the anchored statement (the statement's
+                                # borrows end with that block)
+                                k += 1
+                                while k < end and rf.ct(k).text != '}':
+                                    if rf.ct(k).text in ('(', '[', '{'):
+                                        k = rf.match(k) + 1
+                                    else:
+                                        k += 1
+                                if k >= end:
+                                    raise ExtractError(f'{self._where()}: anchor `{anchor}`: enclosing block end not found')
                             self.ed.insert(rf.ct(k).end, '\n' + ins, 3)
                             return
                         self.ed.insert(rf.ct(ci).start, ins, 3)
